@@ -1267,12 +1267,14 @@ Definition dump (r : rstate) : str :=
               (r_handles r)).
 
 (* a hash of the observation of one step (outcome code, result, dump): the byte string read as a
-   base-256 number modulo a 61-bit prime (Python: int.from_bytes(s, 'big') % P61), 7 bytes per reduction *)
-Definition P61 : N := 2305843009213693921.
+   base-256 number modulo 2^61-1 (Python: int.from_bytes(s, 'big') % (2**61-1)); reduction by
+   folding, 7 bytes at a time *)
+Definition M61 : N := 2305843009213693951.
+Definition fold61 (x : N) : N := (N.land x M61 + N.shiftr x 61)%N.
 Fixpoint hash_go (x : str) (h c : N) (k : nat) : N :=
   match x with
-  | [] => N.modulo (N.shiftl h (N.of_nat (8 * k)) + c) P61
-  | b :: r => if Nat.eqb k 7 then hash_go r (N.modulo (N.shiftl h 56 + c) P61) (code b) 1
+  | [] => N.modulo (fold61 (fold61 (N.shiftl h (N.of_nat (8 * k)) + c))) M61
+  | b :: r => if Nat.eqb k 7 then hash_go r (fold61 (fold61 (N.shiftl h 56 + c))) (code b) 1
               else hash_go r h (c * 256 + code b)%N (S k)
   end.
 Definition hash_str (x : str) : N := hash_go x 0%N 0%N 0.
